@@ -25,6 +25,7 @@ table = subprocess.run(['python3', '/verif/tools/seeded_table.py'], capture_outp
 body = body.replace('SEEDED_TABLE', table).replace('N_REPAIRS', str(len(fix)))
 s = s.rstrip('\n') + '\n' + ''.join(out) + body
 import re
-s = re.sub(r"\(\d+ repairs, no open finding\)", f"({len(fix)} repairs, no open finding)", s)
+n_open = sum(1 for f in kf if f.get('status') == 'open')
+s = re.sub(r"\(\d+ repairs, (?:no open finding|\d+ open finding keys?)\)", f"({len(fix)} repairs, {n_open} open finding keys)" if n_open else f"({len(fix)} repairs, no open finding)", s)
 open('/verif/DESIGN.md', 'w').write(s)
 print('DESIGN.md', len(s), 'bytes;', len(fix), 'repairs;', table.count('\n') - 2, 'seeded changes')
